@@ -154,6 +154,17 @@ def run(m: Model, r: Report, tier: str) -> None:
     r.check(len(sess_filter) == 1 and "_L not in self.config.skip or self.config.skip[_L] is not None" in m.mtext(main, sess_filter[0]), "R5",
             f"{main.qualname}#whole-session-skip", "sessions skipped as a whole (skip[s] is None) must not be entered", loc=main.loc)
 
+    cs = m.require_function("gallia.services.uds.ecu.ECU.check_and_set_session")
+    gc = CFG(cs.node)
+    reads_ = {n.id for n in gc.nodes.values() if n.kind == "stmt" and n.ast is not None and "self.read_session(" in ast.unparse(n.ast)}
+    trues_ = {n.id for n in gc.nodes.values() if n.kind == "return" and isinstance(n.ast, ast.Return) and n.ast.value is not None and ast.unparse(n.ast.value) == "True"}
+    if not reads_ or not trues_:
+        raise AnalysisError(f"{cs.qualname}: read_session calls / `return True` not found")
+    okq, path = gc.must_pass(gc.entry, reads_, trues_)
+    r.check(okq, "R5", f"{cs.qualname}#asks-the-ecu",
+            "check_and_set_session can report the expected session without asking the ECU (read_session): a silent fall-back of the ECU to the default "
+            "session is then never noticed and the remaining probes are reported under the wrong session: " + " -> ".join(repr(gc.nodes[p_]) for p_ in path[-4:]), loc=cs.loc)
+
     # ---------------------------------------------------------------- R6-R8
     pi = m.require_function(f"{IDS}.ScanIdentifiers.perform_scan")
     loops = [n for n in walk_no_nested(pi.node) if isinstance(n, ast.For) and "product(" in ast.unparse(n.iter)]
@@ -178,6 +189,19 @@ def run(m: Model, r: Report, tier: str) -> None:
     sfl = ast.unparse(loops[0].iter.args[1]) if loops and isinstance(loops[0].iter, ast.Call) and len(loops[0].iter.args) == 2 else "sub_functions"
     rc = [n for n in walk_no_nested(pi.node) if isinstance(n, ast.Assign) and ast.unparse(n.targets[0]) == sfl and "RoutineControlSubFuncs" in ast.unparse(n.value)]
     r.check(len(rc) == 1, "R7", f"{pi.qualname}#routine-sub-functions", "RoutineControl must be scanned for every RoutineControlSubFuncs member", loc=pi.loc)
+    if len(rc) == 1 and loops:
+        gi = CFG(pi.node)
+        conds_rc = [n for n in gi.nodes.values() if n.kind == "cond" and n.ast is not None and ast.unparse(n.ast).replace(" ", "") == "self.config.service==UDSIsoServices.RoutineControl"
+                    and not any(n.ast is x for x in ast.walk(loops[0]))]
+        asg_nodes = {n.id for n in gi.nodes.values() if n.ast is rc[0]}
+        loop_nodes = {n.id for n in gi.nodes.values() if n.kind == "loop" and n.ast is loops[0]}
+        if len(conds_rc) != 1 or not asg_nodes or not loop_nodes:
+            raise AnalysisError(f"{pi.qualname}: RoutineControl set-up branch not found")
+        tb = [b for b, k in gi.succ[conds_rc[0].id] if k == "n"][0]
+        okp, path = gi.must_pass(tb, asg_nodes, loop_nodes, skip_edge=lambda n, b, k: k == "exc")
+        r.check(okp, "R7", f"{pi.qualname}#routine-sub-functions-always",
+                "for service RoutineControl the identifier loop is reachable without the sub-function list being set to all RoutineControlSubFuncs "
+                "(e.g. only when no payload is given): " + " -> ".join(repr(gi.nodes[p_]) for p_ in path[-4:]), loc=pi.loc)
     ibreaks = [n for n in ast.walk(loops[0]) if isinstance(n, ast.Break)] if loops else []
     okbr = all(any(isinstance(a, ast.If) and ast.unparse(a.test) == "self.config.skip_not_supported" and n in a.body for a in ast.walk(loops[0])) for n in ibreaks)
     r.check(okbr and len(ibreaks) <= 1, "R6", f"{pi.qualname}#no-early-end", "the identifier loop may only be left early under --skip-not-supported", loc=pi.loc)
